@@ -34,6 +34,11 @@ def _c(pid, engine, technique, level_text, level_note, design_ref):
 
 
 CHECKS = [
+    _c("C09", E2,
+       "bounded symbolic execution of the LLVM IR of reachable.cc / typegraph.cc over z3 bit-vectors; contracts as unsat queries plus bounded Program-level histories with symbolic endpoints",
+       "Bounded solver-based check of the compiled C++: the row-OR update contract of add_connection, is_reachable and add_node (both vector layouts) hold for ARBITRARY 64-bit matrix contents at the listed node counts (one, two and three 64-bit buckets and both sides of each boundary); histories of k ConnectTo calls with symbolic endpoints on n nodes agree with graph reachability after every step. sat models are replayed on the compiled extension before being reported.",
+       "Trusted: clang++-14 front end/-O1, the interpreter (validated against the compiled extension on concrete histories), z3. Stubs: operator new/delete, memset/memmove, InvalidateSolver. Outside: NewCFGNode, node counts not listed, the production optimisation level.",
+       "DESIGN.md 4 C09"),
     _c("C05", E1,
        "symbolic execution (CrossHair+z3) of the stub printer, parser and verifier over generated stubs in the emitted dialect; parse/print fixed point plus a spec oracle for what was read",
        "Bounded solver-certified exhaustive check for generated stubs: every bounded function signature, class shape and type form parses, verifies, matches the spec it was generated from, and is a fixed point of print-then-parse; canonical_pyi is idempotent. Stubs emitted for analysed programs are NOT covered (need the VM).",
@@ -101,5 +106,4 @@ NOT_APPLICABLE = {
     "C15": "quantifies over source texts through compile -> blocks -> VM -> output; only the block-graph stage has an encodable kernel, claimed under C16",
     "C20": "merge_pyi parses with libcst's native parser and delegates the merge to libcst's ApplyTypeAnnotationsVisitor; the deciding code is third-party and largely native",
     # Planned in DESIGN.md; listed here until their check is committed:
-    "C09": "check under construction (DESIGN.md 4 C09); not claimed until committed",
 }
